@@ -38,6 +38,9 @@ type PEConfig struct {
 	MaxDepth int
 	MaxSteps int
 	MaxPaths int
+	// LoopBound: how many times one path may take the "stay in the loop" side of
+	// an undecided loop-exit test before it is forced out (default 2).
+	LoopBound int
 }
 
 type PECall struct {
@@ -73,6 +76,7 @@ type peState struct {
 	known  map[*types.Var]bool
 	calls  []PECall
 	trace  []bool
+	visits map[*ssa.If]int
 }
 
 func (s *peState) clone() *peState {
@@ -92,6 +96,10 @@ func (s *peState) clone() *peState {
 	}
 	n.calls = append([]PECall{}, s.calls...)
 	n.trace = append([]bool{}, s.trace...)
+	n.visits = make(map[*ssa.If]int, len(s.visits))
+	for k, v := range s.visits {
+		n.visits[k] = v
+	}
 	n.tuples = make(map[ssa.Value][]constant.Value, len(s.tuples))
 	for k, v := range s.tuples {
 		n.tuples[k] = v
@@ -248,6 +256,7 @@ func (pe *pEval) run(fn *ssa.Function, st *peState, depth int, done func(s *peSt
 					}
 				case *ssa.BinOp:
 					a, bb := pe.get(s, x.X), pe.get(s, x.Y)
+					delete(s.env, x) // a value assumed on an earlier visit (loop) does not survive re-evaluation
 					if a != nil && bb != nil {
 						if r := foldBin(x.Op, a, bb, x.Type()); r != nil {
 							s.env[x] = r
@@ -314,6 +323,29 @@ func (pe *pEval) run(fn *ssa.Function, st *peState, depth int, done func(s *peSt
 						}
 						i = 0
 						continue blocks
+					}
+					if lp := loopBlocks(b); len(lp) > 0 && (lp[b.Succs[0]] != lp[b.Succs[1]]) {
+						// an undecided loop-exit test: bounded unrolling per path
+						if s.visits == nil {
+							s.visits = map[*ssa.If]int{}
+						}
+						bound := pe.cfg.LoopBound
+						if bound == 0 {
+							bound = 2
+						}
+						if s.visits[x] >= bound {
+							exit := 0
+							if lp[b.Succs[0]] {
+								exit = 1
+							}
+							nc, nt := normCond(x.Cond, exit == 0)
+							s.env[nc] = constant.MakeBool(nt)
+							prev = b
+							b = b.Succs[exit]
+							i = 0
+							continue blocks
+						}
+						s.visits[x]++
 					}
 					pe.paths++
 					if pe.paths > pe.cfg.MaxPaths {
